@@ -14,3 +14,5 @@ INVARIANT TypeOK
 PROPERTY Frame
 PROPERTY RefusedChangesNothing
 PROPERTY ReopenShowsFile
+PROPERTY SessionKeepsFile
+PROPERTY ResumeKeepsObject
